@@ -245,3 +245,51 @@ package mail
 //@ func mail.Msg.GetSender
 //@   requires[C05:wf] m != nil
 //@   modifies[C05:frame] heap("none")
+
+// ---------------------------------------------------------------------------
+// C02  No caller-supplied text can alter the header block
+//
+// Every string that reaches a header sink (the values of writeHeader, the value slices of the
+// map handed to multipart.Writer.CreatePart) is free of CR and LF.
+//@ pred fnbad(c int) = c < 32 || c == 34 || c == 47 || c == 58 || c == 60 || c == 62 || c == 63 || c == 92 || c == 124 || c == 127
+//@ func mail.sanitizeFilename (input) (out)
+//@   ensures[C02:length] len(out) == len(input)
+//@   ensures[C02:bytes] forall i :: 0 <= i && i < len(input) ==> out[i] == (fnbad(input[i]) ? 95 : input[i])
+//@   ensures[C02:hsafe] nocrlf(out)
+//@   loop 1 invariant[C02:bytes] 0 <= i && i <= len(input) && len(sanitized.bcontent) == i && (forall j :: 0 <= j && j < i ==> sanitized.bcontent[j] == (fnbad(input[j]) ? 95 : input[j]))
+//@ pred valsafe(vs []string) = forall j :: 0 <= j && j < len(vs) ==> nocrlf(vs[j])
+//@ pred ghsafe(m *mail.Msg) = forall k string :: k in m.genHeader ==> (len(m.genHeader[k]) == 0 || allocated(arrof(m.genHeader[k]))) && valsafe(m.genHeader[k])
+//@ pred hdrsafe(h netmail.Header) = forall k string :: k in h ==> valsafe(h[k])
+//@ func mail.Msg.encodeString
+//@   ensures[C02:hsafe] nocrlf(result)
+//@ func mail.Msg.SetGenHeader (header, values)
+//@   requires[C02:inv] m != nil && ghsafe(m)
+//@   ensures[C02:inv] ghsafe(m)
+//@   loop 1 invariant[C02:encoded] 0 <= rangeindex + 1 && (forall j :: 0 <= j && j <= rangeindex && j < len(values) ==> nocrlf(values[j])) && ghsafe(m) && m.genHeader != nil
+//@ func mail.msgWriter.writeHeader (key, values)
+//@   requires[C02:hsafe] valsafe(values)
+//@ func mail.msgWriter.newPart (header)
+//@   requires[C02:hsafe] mhs(header)
+//@ func mail.msgWriter.writeGenHeader (msg)
+//@   requires[C02:inv] mw != nil && msg != nil && ghsafe(msg)
+//@   loop 1 invariant[C02:inv] kept("A.string") && freshslice(keys)
+//@   loop 2 invariant[C02:inv] ghsafe(msg)
+//@ pred filesafeX(f *mail.File) = f != nil && f.Header != nil && mhsx(f.Header) && (canon("Content-ID") in f.Header ==> len(f.Header[canon("Content-ID")]) == 1) && nocrlf(f.ContentType) && nocrlf(f.Enc)
+//@ func mail.File.setHeader (header, value)
+//@   requires[C02:wf] f != nil && f.Header != nil
+//@   ensures[C02:hsafe] f.Header == old(f.Header) && (old(mhs(f.Header)) && nocrlf(value) ==> mhs(f.Header)) && (old(mhsx(f.Header)) && nocrlf(value) ==> mhsx(f.Header)) && (old(mhsx(f.Header)) && nocrlf(value) && canon(header) == canon("Content-ID") ==> mhs(f.Header))
+//@   ensures[C02:set] (canon(header) in f.Header) && len(f.Header[canon(header)]) == 1
+//@ func mail.File.getHeader (header) (v, ok)
+//@   requires[C02:wf] f != nil
+//@   ensures[C02:def] v == ((canon(header) in f.Header) && len(f.Header[canon(header)]) >= 1 ? f.Header[canon(header)][0] : "") && ok == (v != "")
+//@ func mail.msgWriter.addFiles (files, isAttachment)
+//@   requires[C02:files] mw != nil && (forall i :: 0 <= i && i < len(files) ==> filesafeX(files[i]))
+//@   loop 1 invariant[C02:files] forall i :: 0 <= i && i < len(files) ==> filesafeX(files[i])
+//@ func mail.msgWriter.writePart (part, charset)
+//@   requires[C02:typed] mw != nil && part != nil && nocrlf(part.contentType) && nocrlf(part.charset) && nocrlf(part.encoding) && nocrlf(charset)
+//@ func mail.Encoding.String
+//@   ensures[C02:id] result == e
+//@ func mail.ContentType.String
+//@   ensures[C02:id] result == c
+//@ func mail.Charset.String
+//@   ensures[C02:id] result == c
